@@ -167,6 +167,13 @@ def level_b(ctx):
         ops = [["counters"]] + [["param", p] for p in sorted(cfg.get("parameters", {}))] + [["get", s_] for s_ in cfg["services"] if not cfg["services"][s_].get("todo")] + [["counters"]]
         items.append((cfg, ops))
         metas.append((used, expect))
+    # the generated package itself, written `"."`, in every position kind (constructor, value, &value, struct, type, !value,
+    # decorator, function of a parameter, unused type)
+    for tbl in TABLES[:2]:
+        cfg, used, expect = position_cfg(ctx.rng, tbl, True, fixed=[("", '"."')] * 9)
+        ops = [["counters"]] + [["param", p] for p in sorted(cfg.get("parameters", {}))] + [["get", s_] for s_ in cfg["services"] if not cfg["services"][s_].get("todo")] + [["counters"]]
+        items.append((cfg, ops))
+        metas.append((used, expect))
     # the alias table is the MERGED one: a later file re-pointing an alias wins for every reference, in whichever file
     m0 = {"pkg": "gen"}
     mf = {"meta": dict(m0, imports={"st": "probe/fx2/pkg", "k": "probe/deep"}),
